@@ -75,10 +75,12 @@ def ref(cool_uri, bins, chunks, columns=None, dtypes=None, mode=None, mergebuf=2
         final = parts
     chunks = CoolerMerger([Cooler(u) for u in final], mergebuf, columns=columns)
     create(cool_uri, bins, chunks, columns=columns, dtypes=dtypes, mode=mode, **kwargs)
-    if windows and delete_temp:
-        for tf in files:
-            if not tf.closed:
-                tf.close()
+    # every temporary file is closed explicitly on the success path (closing deletes it when
+    # delete=True) - never left to garbage collection
+    for tf in files:
+        if not tf.closed:
+            tf.close()
+        if windows and delete_temp:
             os.remove(tf.name)
     del files
 '''
@@ -195,6 +197,14 @@ def tempfiles(ctx, fa):
         d = T.get_kw(e.term, 'delete')
         ctx.eq(R, f'delete-flag#{k + 1}', d, want, ctx.where(fa, e), 'temporary files vanish on close unless the caller keeps them')
         reg = [c for c in calls(fa, method='append') if c.args and c.args[0] == e.term]
+        # ... and every registered file is closed explicitly at the end (typestate: created -> closed)
+        if k == 0:
+            closes = [c for c in calls(fa, method='close') if c.loops and not [g for g, kd in zip(c.guards, c.gkinds)
+                                                                                if kd == 'if' and 'closed' not in T.show(g[0])]]
+            ctx.check(bool(closes), R, 'closed-explicitly', ctx.where(fa, closes[0] if closes else None), found=len(closes),
+                      expected='for tf in temp_files: tf.close()  - unconditional (except "if not tf.closed")',
+                      reason='relying on garbage collection lets a temporary file outlive a successful run (a cached traceback keeps the frame alive)',
+                      key='C06.tempfiles|create_from_unordered|temp-files-not-closed-explicitly')
         ctx.check(bool(reg), R, f'registered#{k + 1}', ctx.where(fa, e), found=len(reg), expected='appended to the temp-file list',
                   reason='the object must stay referenced until the final merge is done and be removed on the Windows path')
 
